@@ -1,5 +1,12 @@
-//go:build verif && !purego
+//go:build verif && !purego && amd64
 
 package x25519
 
 const vc06Purego = false
+
+func vc06Backend() string {
+	if hasBmi2Adx {
+		return "asm-bmi2-adx"
+	}
+	return "asm-legacy"
+}
